@@ -15,11 +15,15 @@ m = {
   "add_only": True
  },
  "engines": [
-  {"name": "proxy", "path": "harness/inpkg/zz_verif_proxy_test.go + lean/KamalProxy/Model/Proxy.lean", "serves_properties": ["C01","C02","C03","C05","C07","C08","C09","C17"], "kind_free_text": "schedules (requests, commands, probe scripts, hook releases, virtual time) against a real Router under testing/synctest with tag-guarded hook parking, diffed against the Lean concurrent timed model"},
+  {"name": "proxy", "path": "harness/inpkg/zz_verif_proxy_test.go + lean/KamalProxy/Model/Proxy.lean", "serves_properties": ["C01","C02","C03","C05","C07","C08","C09","C17","C18"], "kind_free_text": "schedules (requests, commands, probe scripts, hook releases, virtual time) against a real Router under testing/synctest with tag-guarded hook parking, diffed against the Lean concurrent timed model"},
   {"name": "rollout", "path": "harness/inpkg/zz_verif_rollout_test.go", "serves_properties": ["C10"], "kind_free_text": "split point for every percentage, cookie extraction and decision as pure functions"},
-  {"name": "buffer", "path": "harness/inpkg/zz_verif_buffer_test.go", "serves_properties": ["C14"], "kind_free_text": "exhaustive small scope on Buffer + request/response buffering middlewares with a private TMPDIR"},
+  {"name": "buffer", "path": "harness/inpkg/zz_verif_buffer_test.go", "serves_properties": ["C13","C14"], "kind_free_text": "exhaustive small scope on Buffer + request/response buffering middlewares with a private TMPDIR"},
   {"name": "snapshot", "path": "harness/inpkg/zz_verif_snapshot_test.go", "serves_properties": ["C12"], "kind_free_text": "crash points and overlapping commands of the state snapshot write (real clock)"},
-  {"name": "control", "path": "harness/inpkg/zz_verif_control_test.go + lean/KamalProxy/Driver/Control.lean", "serves_properties": ["C04","C05","C06","C08","C10","C11","C16"], "kind_free_text": "command histories against a real Router in a synctest bubble with an in-memory network, diffed against the Lean control-plane model"},
+  {"name": "control", "path": "harness/inpkg/zz_verif_control_test.go + lean/KamalProxy/Driver/Control.lean", "serves_properties": ["C01","C02","C04","C05","C06","C08","C09","C10","C11","C14","C16","C17","C18"], "kind_free_text": "command histories against a real Router in a synctest bubble with an in-memory network, diffed against the Lean control-plane model"},
+  {"name": "rewrite", "path": "harness/inpkg/zz_verif_rewrite_test.go + lean/KamalProxy/Model/Rewrite.lean", "serves_properties": ["C13"], "kind_free_text": "request targets, headers and bodies through the full handler chain to an in-memory target; what the target saw and what the client got, diffed against the URL/header model"},
+  {"name": "faults", "path": "harness/inpkg/zz_verif_faults_test.go + lean/KamalProxy/Model/Faults.lean", "serves_properties": ["C13","C15","C19"], "kind_free_text": "byte-level scripted target behind the full stack with a real http.Server front and a raw client (faults at every point of the response, informational responses, upgrades, Expect: 100-continue, client aborts) with the JSON access log captured"},
+  {"name": "soak", "path": "harness/inpkg/zz_verif_soak_test.go + checklib/soak_engine.py", "serves_properties": ["C17","C18"], "kind_free_text": "uncontrolled concurrent runs of a race-enabled build (commands, plain/cookie/POST/upgraded/stalled clients, probe flips) watching for race reports, panics and operations that do not return"},
+  {"name": "cli", "path": "checklib/cli_engine.py + lean/KamalProxy/Model/Cli.lean", "serves_properties": ["C20"], "kind_free_text": "black-box runs of the built kamal-proxy binary (environment/flag matrices, deploy validation against a connection-counting socket, a live proxy with loopback targets)"},
  ],
  "checks": [], "not_applicable": [],
  "notes": "Every claimed check: Lean 4 theorems about a hand-written model (lean/KamalProxy) + correspondence run tying the model to /repo's working tree; see DESIGN.md."
